@@ -39,6 +39,11 @@ func (r *Recorder) AddPacket(ts time.Time, ssrc uint32, seq uint16, ecn uint8) {
 	stream.add(ts, seq, ecn)
 }
 
+// removeStream drops the reception log of the stream with the given SSRC.
+func (r *Recorder) removeStream(ssrc uint32) {
+	delete(r.streams, ssrc)
+}
+
 // BuildReport creates a new rtcp.CCFeedbackReport containing all packets that
 // were added by AddPacket and missing packets.
 func (r *Recorder) BuildReport(now time.Time, maxSize int) *rtcp.CCFeedbackReport {
